@@ -240,9 +240,14 @@ pub fn world(ch: &mut Chooser) -> World {
     let site_names: Vec<&str> = SITES.iter().map(|s| s.0).collect();
     let site = ch.pick("site", &site_names, 0);
     // names that something else declares (a function block, a function, a program, a type) are no variables
-    let name = ["x", "zz", "k", "G", "1", "a_in", "q_out", "io_v", "Callee", "Fn", "Main", "Level"][ch.pick(
+    // names that another declaration of the unit declares for itself (an input of Callee, the instance of Main, a value
+    // of the enumeration's neighbour, a field of the structure) are not declared here
+    let name = ["x", "zz", "k", "G", "1", "a_in", "q_out", "io_v", "Callee", "Fn", "Main", "Level", "b", "c", "io", "Str10"][ch.pick(
         "name",
-        &["declared-local", "undeclared", "constant-k", "external-G", "literal", "declared-input", "declared-output", "declared-in-out", "name-of-a-function-block", "name-of-a-function", "name-of-a-program", "name-of-a-type"],
+        &[
+            "declared-local", "undeclared", "constant-k", "external-G", "literal", "declared-input", "declared-output", "declared-in-out", "name-of-a-function-block", "name-of-a-function", "name-of-a-program", "name-of-a-type",
+            "declared-only-in-the-callee", "declared-only-in-Main", "in-out-of-the-callee", "name-of-a-string-type",
+        ],
         1,
     )];
     let (site_label, template, is_target) = SITES[site];
@@ -251,7 +256,7 @@ pub fn world(ch: &mut Chooser) -> World {
     // a statement directly before the use site (resolution state must not leak from one statement to the next)
     let pre = ch.pick("pre", &["none", "enum-assignment", "int-assignment", "fb-call", "string-assignment"], 1);
     let pre_s = ["", "lv := Low ;", "y := 2 ;", "inst ( a := y ) ;", "str := 'abc' ;"][pre];
-    let undeclared = name == "zz" || matches!(name, "Callee" | "Fn" | "Main" | "Level") || (name == "k" && kdecl == 1) || (name == "G" && ext == 1);
+    let undeclared = name == "zz" || matches!(name, "Callee" | "Fn" | "Main" | "Level" | "b" | "c" | "io" | "Str10") || (name == "k" && kdecl == 1) || (name == "G" && ext == 1);
     if undeclared {
         w.violated.insert("P0015");
     }
